@@ -3,6 +3,7 @@ package main
 
 import (
 	"bytes"
+	"context"
 	"fmt"
 	"os"
 	"path/filepath"
@@ -329,6 +330,18 @@ func fsFamily(w *mon.W) {
 		mk(&app.FS{Root: root, GenerateIndexPages: true, IndexNames: []string{"index.html"}}),
 		mk(&app.FS{Root: root, Compress: true, PathRewrite: app.NewPathSlashesStripper(0)}),
 		mk(&app.FS{Root: vroot, PathRewrite: app.NewVHostPathRewriter(0)}),
+		// a download handler of the usual kind: one path parameter (which cannot contain a
+		// slash), appended to a directory, handed to ctx.File
+		rig.NewEngine(opt, func(e *route.Engine) {
+			e.GET("/:name", func(c context.Context, ctx *app.RequestContext) {
+				name := ctx.Param("name")
+				if name == ".." || name == "." || strings.ContainsAny(name, "/\\") {
+					ctx.SetStatusCode(400)
+					return
+				}
+				ctx.File(filepath.Join(root, "a") + "/" + name)
+			})
+		}),
 	}
 	ft := []string{"/", "..", ".", "%2e%2e", "%2e", "%2f", "%2F", "secret", "c.txt", "a", "root", "%5c", "\\", "..%2f", "%2e%2e%2f", "....//", "%252e%252e", "a/f.txt", "%00", ";"}
 	w.Cases("fs", uint64(w.Pick(600, 6000)), func(c *mon.Case) {
@@ -346,6 +359,10 @@ func fsFamily(w *mon.W) {
 				}
 			}
 			t := sb.String()
+			if r.Chance(6) {
+				// doubly encoded segments (what survives the first decoding is again an escape)
+				t = "/" + strings.Repeat(r.Str("%252e%252e%252f", "%252E%252E%252F", "..%252f", "%252e%252e/"), 1+r.Intn(3)) + r.Str("c.txt", "secret%252fc.txt", "a/f.txt")
+			}
 			targets = append(targets, t)
 			stream = append(stream, fmt.Sprintf("GET %s HTTP/1.1\r\nHost: h\r\n\r\n", t)...)
 		}
